@@ -68,6 +68,23 @@ def run_two_hot(case):
     if not ok:
         return res
     b = np.asarray(bins, dtype=np.float64)
+    # the documented limits: symexp of the requested exponents (a call must not
+    # depend on what was asked for earlier in the process: a second request with
+    # the same number of edges and another range follows right here)
+    def symexp(x):
+        return np.sign(x) * (np.exp(np.abs(x)) - 1.0)
+    lo_, hi_ = float(case["lo"]), float(case["hi"])
+    other = np.asarray(pp.make_two_hot_bins(lo_ - 1.5, hi_ + 2.5, case["n"]),
+                       np.float64)
+    for got, (l2, h2) in ((b, (lo_, hi_)), (other, (lo_ - 1.5, hi_ + 2.5))):
+        if len(got) == case["n"] and case["n"] >= 2 and not (
+                np.isclose(got[0], symexp(l2), rtol=1e-4, atol=1e-6)
+                and np.isclose(got[-1], symexp(h2), rtol=1e-4, atol=1e-6)):
+            res.violation("C18/bins", f"make_two_hot_bins({l2}, {h2}, {case['n']}) "
+                          f"spans [{got[0]!r}, {got[-1]!r}], symexp of the exponents "
+                          f"is [{symexp(l2)!r}, {symexp(h2)!r}]")
+            return res
+    res.see("bin_ranges_checked", 2)
     if len(b) != case["n"] or np.any(np.diff(b) <= 0):
         res.violation("C18/bins", "bins not strictly increasing / wrong count",
                       {"bins": b})
